@@ -76,7 +76,7 @@ func blastMain(args mon.Args, prop string) {
 	if prop == "C01" {
 		nProc = run.Pick(2, 10)
 	}
-	var totalSent, totalPub, totalDrops, exactFed int64
+	var totalSent, totalPub, totalDrops, exactFed, backlogFed int64
 	for pi := 0; pi < nProc; pi++ {
 		g := mon.NewRNG(run.Seed, "blast-"+prop, pi)
 		pdir := filepath.Join(dir, fmt.Sprintf("blast%d", pi))
@@ -90,6 +90,9 @@ func blastMain(args mon.Args, prop string) {
 		statsPort := reservedPort()
 		workers := []int{4, 1, 32}[pi%3]
 		udpSize := []int{1500, 512, 9000}[pi%3]
+		if prop == "C13" && workers == 1 {
+			udpSize = 9000 // large datagrams keep the single worker busy long enough for a backlog to form
+		}
 		conf := map[string]string{
 			"mq-name": "rawSocket", "mq-config-file": "mq.conf", "ipfix-rpc-enabled": "false", "dynamic-workers": "false",
 			"stats-format": "rest", "stats-http-port": strconv.Itoa(statsPort), "stats-http-addr": "127.0.0.1",
@@ -250,6 +253,21 @@ func blastMain(args mon.Args, prop string) {
 						}
 					}
 				}
+			}
+			// a backlog: one worker cannot keep up with 6000 datagrams sent as fast as the collector's own UDPCount
+			// allows, so the 1000-slot hand-over queue between the read loop and the worker fills. Every datagram the
+			// collector counts as received must still be decoded and published.
+			if prop == "C13" && workers == 1 && proto == "ipfix" {
+				type pre struct{ e, d []byte }
+				var burst []pre
+				for k := 0; k < 3000; k++ {
+					e := exps[g.Intn(len(exps))]
+					burst = append(burst, pre{e, tr.Data(e, id+1+k, true)}) // generated beforehand: the sender must outrun the worker
+				}
+				for _, b := range burst {
+					feed(b.e, b.d, "data (backlog burst)")
+				}
+				backlogFed += int64(len(burst))
 			}
 			n := run.Pick(600, 6000)
 			for k := 0; k < n; k++ {
@@ -490,6 +508,7 @@ func blastMain(args mon.Args, prop string) {
 	}
 	run.Set("datagrams_sent_over_udp", totalSent)
 	run.Set("datagrams_exactly_filling_the_receive_buffer", exactFed)
+	run.Set("datagrams_sent_as_backlog_bursts_to_a_single_worker", backlogFed)
 	run.Set("messages_at_the_sink", totalPub)
 	run.Set("kernel_drops", totalDrops)
 	run.Set("collector_processes", nProc)
